@@ -107,6 +107,11 @@ class Eval:
     # ---- expressions
     def ev(self, n):
         k = n['kind']
+        if k in ('ImplicitCastExpr', 'CStyleCastExpr') and n.get('type', {}).get('qualType') in ('unsigned char', 'const unsigned char'):
+            v = self.ev(n['inner'][0])
+            if isinstance(v, tuple) and v and v[0] == 'rawbyte':
+                j = v[1]; lo, hi = self.box[j]; return Iv(lo, hi, [j], pure=j)          # (unsigned char) c  is  c & 0xFF
+            return v
         if k in ('ImplicitCastExpr', 'ParenExpr', 'CStyleCastExpr', 'ConstantExpr'): return self.ev(n['inner'][0])
         if k in ('IntegerLiteral', 'CharacterLiteral'): return int(n['value'])
         if k == 'DeclRefExpr':
